@@ -249,6 +249,7 @@ def run(ctx):
     from harness import floatstreams
     floatstreams.capa_float_stream(ctx, ctx.n(18, 120))
     floatstreams.capa_l2_end_to_end_stream(ctx, ctx.n(16, 100))
+    floatstreams.capa_l2_columns_end_to_end_stream(ctx, ctx.n(10, 60))
 
 
 def capa_default_scale_stream(ctx):
